@@ -179,6 +179,19 @@ CHECKS["C01"] = dict(
                        "repeatability of scipy routines are not decided; the no-solution exits of findWallVelocityDetonation are outside rule R01.4.",
 )
 
+CHECKS["C16"] = dict(
+    level="other",
+    technique="static analysis: symbolic evaluation (linear forms in M, N) of every basis-index range per (direction, endpoints, basis) read from "
+              "the guarded ast; term-level derivative identity for the restricted basis; finite enumeration of the axis algebra for rank <= 4",
+    text="For all grid sizes at once: the index ranges used at seven sites agree with each other and with the grid's point counts for all "
+         "six (direction, endpoints) combinations, with the right restriction label; the derivative-matrix correction is the derivative of "
+         "the basis correction and the restricted functions vanish at the dropped end points; node formulas and quadrature weights share "
+         "their denominators per direction, end-point weights are halved where a Lobatto end point is kept; for every rank <= 4 and axis "
+         "the matrices land on (i, i+1), the contraction removes the old axis and all other axes are untouched (the pinned test only has "
+         "rank 1, where these index tuples are empty).",
+    note=COMMON_NOTE + " Exactness of Gauss-Lobatto quadrature and of barycentric differentiation are theorems about the nodes, not decided here.",
+)
+
 NOT_APPLICABLE = {}
 
 ENGINES = [
